@@ -39,7 +39,9 @@ func munmapFile(d *Data) error {
 	if len(d.Data) == 0 {
 		return nil
 	}
-	err := syscall.Munmap(d.Data)
+	// The mapping covers whole pages; d.Data may have been cut to the file's
+	// size, and munmap wants the slice it handed out.
+	err := syscall.Munmap(d.Data[:cap(d.Data)])
 	if err != nil {
 		return &fs.PathError{Op: "munmap", Path: d.f.Name(), Err: err}
 	}
